@@ -136,7 +136,7 @@ func newFaultChannel(frames []Frame, k int, fault string, writeFailAt int) *faul
 	pr, pw := io.Pipe()
 	c.wPipeW = pw
 	go func() {
-		dec := cbor.NewDecoder(pr)
+		dec := atpx.Dec.NewDecoder(pr)
 		for {
 			var raw cbor.RawMessage
 			if err := dec.Decode(&raw); err != nil {
@@ -147,7 +147,7 @@ func newFaultChannel(frames []Frame, k int, fault string, writeFailAt int) *faul
 				ID    uint32 `cbor:"id"`
 				RunID string `cbor:"run_id"`
 			}
-			_ = cbor.Unmarshal(raw, &m)
+			_ = atpx.Dec.Unmarshal(raw, &m)
 			c.mu.Lock()
 			c.requests++
 			if m.ID == atp.MessageTypeWorkStart {
@@ -470,7 +470,7 @@ func workerFn(raw json.RawMessage) json.RawMessage {
 func referenceReading(stream []byte, v1 bool) (helloOK bool, workDone map[string][]atpx.OutMessage, v1Done []atp.WorkDoneMessage) {
 	workDone = map[string][]atpx.OutMessage{}
 	if v1 {
-		dec := cbor.NewDecoder(bytes.NewReader(stream))
+		dec := atpx.Dec.NewDecoder(bytes.NewReader(stream))
 		var h atp.HelloMessage
 		if dec.Decode(&h) != nil {
 			return false, workDone, nil
@@ -575,12 +575,12 @@ func assess(c Case, body json.RawMessage, crash *sup.Crash, restart func()) (str
 				}
 				var wdm atp.WorkDoneMessage
 				if c.V1 {
-					if cbor.Unmarshal(f.Bytes, &wdm) != nil {
+					if atpx.Dec.Unmarshal(f.Bytes, &wdm) != nil {
 						continue
 					}
 				} else {
 					var dm atp.DecodedRuntimeMessage
-					if cbor.Unmarshal(f.Bytes, &dm) != nil || cbor.Unmarshal(dm.RawMessageData, &wdm) != nil {
+					if atpx.Dec.Unmarshal(f.Bytes, &dm) != nil || atpx.Dec.Unmarshal(dm.RawMessageData, &wdm) != nil {
 						continue
 					}
 				}
@@ -670,7 +670,7 @@ func TestFaults(t *testing.T) {
 		if v1 {
 			// legacy framing: hello with version 1 and bare work-done messages, strictly serial
 			var h atp.HelloMessage
-			_ = cbor.Unmarshal(frames[0].Bytes, &h)
+			_ = atpx.Dec.Unmarshal(frames[0].Bytes, &h)
 			h.Version = 1
 			hb, _ := cbor.Marshal(h)
 			v1frames := []Frame{{Bytes: hb, Cause: 1, Kind: "hello"}}
@@ -766,7 +766,7 @@ func openEligible(frames []Frame, k int, mask byte) bool {
 			return false
 		}
 		var m atp.DecodedRuntimeMessage
-		return cbor.Unmarshal(g, &m) != nil
+		return atpx.Dec.Unmarshal(g, &m) != nil
 	}
 	return false
 }
@@ -791,7 +791,7 @@ func TestHelloVariants(t *testing.T) {
 		t.Skip("no transcript")
 	}
 	var h atp.HelloMessage
-	_ = cbor.Unmarshal(rec.Frames[0].Bytes, &h)
+	_ = atpx.Dec.Unmarshal(rec.Frames[0].Bytes, &h)
 	variants := map[string]atp.HelloMessage{
 		"unsupported_version_2":  {Version: 2, Schema: h.Schema},
 		"unsupported_version_99": {Version: 99, Schema: h.Schema},
